@@ -31,7 +31,9 @@ RULE = ("templates are generated from a tree with ground truth: probe names boun
         "(x the name is also in the context or not) and read at one of 16 placements of the 9 read sites {body, "
         "top-level def, nested def, anonymous block, named block, call body, control line, tag attribute, filter} "
         "hosted in the body or in a top-level def, x strict_undefined x an unrelated <%namespace import> present: "
-        "exhaustive (1664 templates); random combinations of 2-4 probes with 1-3 placements each (shrunk by ddmin over "
+        "exhaustive (1664 templates); the same product with the probe NAMED `loop`, read inside a `% for` over another target: "
+        "loop context off (every binding site but builtin), on and re-enabled by <%page enable_loop> (bound nowhere) - 832 "
+        "templates; random combinations of 2-4 probes with 1-3 placements each (shrunk by ddmin over "
         "the probes); 30 extended cases (+3 strict-only; bindings inside blocks / call bodies, defs of a <%call>, reassignment between "
         "calls, comprehension variables, def parameters) x strict x ns-import; context entries bound to None / 0 / '' / "
         "[] / False / UNDEFINED / 's' under the keys x, id, len, read implicitly in five kinds of scope and through "
@@ -43,7 +45,7 @@ RULE = ("templates are generated from a tree with ground truth: probe names boun
         "distinct = distinct (template source, data keys, strict)")
 ASSUMPTIONS = [
     "Python's own scoping of the emitted code (closures, locals()) is assumed, validated by running the generated module",
-    "per-construct (declared, undeclared) identifier sets come from mako's own parse nodes (pyparser.FindIdentifiers is C19's subject)",
+    "per-construct (declared, undeclared) identifier sets come from mako's own parse nodes (pyparser.FindIdentifiers is C19's subject); so does the set of `% for` lines whose suite mentions `loop` (codegen.LoopVariable)",
     "templates do not use names starting with __M_ / _mako_ / _import_ns nor the generated module's own globals (runtime, filters, cache, render_*)",
     "<%namespace> tags with inline defs, <%page args=\"**kw\">, cached defs (the `limit` argument) and defs inside control blocks of a <%call> are outside the modelled fragment",
     "a <%call> body executes once, in place (the callee calls caller.body() exactly once)",
@@ -291,7 +293,10 @@ def compare_behaviour(ctx, stream, case, e, full, records, exc):
         msg = str(exc)
         preds = {(n, r[1]) for sc in ms.values() for n, r in sc["res"].items()}
         m1, m2, m3 = STRICT_MSG.match(msg), PY_NAME.match(msg), PY_UNBOUND.match(msg)
-        if isinstance(exc, NameError) and m1:
+        if isinstance(exc, NameError) and m2 and m2.group(1) == "__M_loop":
+            # a `% for` rewritten to use __M_loop in a function that never creates it
+            good = any(sc["for_errors"] for sc in ms.values())
+        elif isinstance(exc, NameError) and m1:
             good = (m1.group(1), "E") in preds
         elif isinstance(exc, NameError) and m2:
             good = any(n == m2.group(1) and (v == "Y" or re.match(r"^c\d+\.a", v)) for n, v in preds) \
@@ -304,6 +309,10 @@ def compare_behaviour(ctx, stream, case, e, full, records, exc):
         if not good:
             ctx.disagree(stream, case.key(), "no exception / a NameError the model accounts for", "%s: %s" % (type(exc).__name__, msg[:120]))
             ok = False
+    elif any(sc["for_errors"] for sc in ms.values()):
+        ctx.disagree(stream, case.key(), {"NameError __M_loop at the % for lines": [sc["for_errors"] for sc in ms.values() if sc["for_errors"]]},
+                     "rendered without exception")
+        ok = False
     return ok
 
 
@@ -401,6 +410,8 @@ def oracle_compare(ctx, stream, case, records, exc, shrunk=False):
     site = classify_violation(case, sid, want, got)
     if isinstance(exc, NameError) and STRICT_MSG.match(str(exc)) and not case.site:
         site = "strict-raised-for-bound-name"
+    if isinstance(exc, NameError) and str(exc) == "name '__M_loop' is not defined":
+        site = "for-rewritten-without-__M_loop"
     violation(ctx, site, case.key(), {"expected": want[len(got):len(got) + 3], "observed": "%s: %s" % (exc_class(exc), str(exc)[:120])}, stream)
     return False
 
@@ -417,7 +428,7 @@ def run_cases(ctx, cases, cstream, ostream):
     for case in cases:
         tmpl, cexc = compile_case(case)
         try:
-            e = Mo.encode_template(case.src, G.IMPORTS)
+            e = Mo.encode_template(case.src, G.IMPORTS, loop_enabled=case.enable_loop)
         except Exception as ex:      # noqa: BLE001 - lexer-level failure: nothing to model
             prepared.append((case, tmpl, cexc, None))
             ctx.branch("lex-exc:" + type(ex).__name__)
@@ -478,7 +489,8 @@ def mk_case(desc, bd, strict, with_import, kind):
     t = bd.finish()
     if with_import and not t.imports:
         t.imports.append("libdef")
-    c = Case(desc, t, dict(bd.data), strict, True, kind)
+    # Template(enable_loop=…): False both for "off" and for "re-enabled by <%page enable_loop>"
+    c = Case(desc, t, dict(bd.data), strict, desc.get("loopcfg", "on") == "on", kind)
     c.sites = bd.sites
     c.data_tags = {k: v.tag for k, v in bd.data.items()}
     return c
@@ -864,6 +876,46 @@ ${rec(context, 'end')}
                                   {"kwargs": str(kw), "given": str(snapshot)}, "oracle.kwargs_in_templates")
 
 
+# --------------------------------------------------------------------------- the `% for` rewrite and enable_loop
+
+def for_rewrite(ctx):
+    """`% for` lines are rewritten to `loop = __M_loop._enter(…)` only while the loop context is enabled and the line or
+    its suite mentions `loop`; model (`forRewritten`, regenerated condition of visitControlLine) vs Template.code"""
+    from mako.template import Template
+    st = ctx.stream("corr.for_rewrite", exhaustive=True)
+    so = ctx.stream("oracle.for_rewrite", "oracle", exhaustive=True)
+    suites = {"mentions-in-suite": "% for i in [1]:\n${loop}\n% endfor\n", "mentions-in-line": "% for i in loop:\n${i}\n% endfor\n",
+              "no-mention": "% for i in [1]:\n${i}\n% endfor\n", "target": "% for loop in [1]:\n${loop}\n% endfor\n"}
+    for cfg in ("on", "off", "page"):
+        for label, body in suites.items():
+            src = ("<%page enable_loop=\"True\"/>\n" if cfg == "page" else "") + body
+            enabled = cfg != "off"
+            mentions = label != "no-mention"
+            try:
+                t = Template(src, enable_loop=(cfg == "on"))
+            except Exception as e:      # noqa: BLE001 - `% for loop in` while enabled: NameConflictError
+                ctx.branch("for-rewrite:compile-" + type(e).__name__)
+                continue
+            st["cases"] += 1
+            impl = "__M_loop._enter" in t.code
+            model = ask_many(ctx, ["names forrewrite %d %d" % (enabled, mentions)])[0] == "1"
+            if impl != model:
+                ctx.disagree("corr.for_rewrite", {"input": src, "config": cfg}, model, impl)
+            # oracle: with the loop context disabled `loop` is an ordinary name
+            if cfg == "off":
+                so["cases"] += 1
+                for data, want in (({"loop": "CTXVAL"} if label != "target" else {}, None),):
+                    try:
+                        out = t.render(**data)
+                        okv = ("CTXVAL" in out) if label == "mentions-in-suite" else True
+                        if not okv:
+                            violation(ctx, "loop-not-ordinary-while-disabled", {"input": src, "config": cfg}, out[:80], "oracle.for_rewrite")
+                    except Exception as e:      # noqa: BLE001
+                        if not (label == "mentions-in-line" and isinstance(e, TypeError)):
+                            violation(ctx, "loop-not-ordinary-while-disabled", {"input": src, "config": cfg},
+                                      "%s: %s" % (type(e).__name__, str(e)[:80]), "oracle.for_rewrite")
+
+
 # --------------------------------------------------------------------------- values of context entries
 
 def context_values(ctx):
@@ -934,9 +986,15 @@ def random_trees(ctx):
     run_cases(ctx, cases, "corr.random_trees", None)
 
 
+def loop_name_cases():
+    for strict in (False, True):
+        for desc, bd in Cs.loop_name_product():
+            yield mk_case(dict(desc, strict=strict, ns_import=False), bd, strict, False, "product")
+
+
 def corr_and_oracle(ctx):
     G.install_rt()
-    cases = list(product_cases())
+    cases = list(product_cases()) + list(loop_name_cases())
     ctx.log("product: %d templates" % len(cases))
     ctx.stream("corr.product", exhaustive=True)
     ctx.stream("oracle.product", "oracle", exhaustive=True)
@@ -954,7 +1012,7 @@ def corr_and_oracle(ctx):
 
 
 STEPS = [("product+random", corr_and_oracle), ("extended", extended), ("random_trees", random_trees),
-         ("context_ops", context_ops), ("context_values", context_values), ("reserved", reserved_names), ("statement_forms", statement_forms),
+         ("context_ops", context_ops), ("context_values", context_values), ("for_rewrite", for_rewrite), ("reserved", reserved_names), ("statement_forms", statement_forms),
          ("kwargs", context_kwargs_in_templates)]
 
 
